@@ -52,6 +52,8 @@ var openURLs = []string{
 	":",
 	"://",
 	"ws://[::1/unterminated",
+	"ws://example.test/redirect-me?to=foreign",
+	"/redirect-me/deeper?x=1",
 }
 
 // worldC13: whatever URL a client puts into a shim open request, the only
@@ -123,6 +125,16 @@ func worldC13(w *World) {
 			resp.Body.Close()
 			otherGot[i] = fmt.Sprintf("%d %s", resp.StatusCode, p)
 		})
+	}
+	// a backend that answers some websocket handshakes with a redirect elsewhere
+	wb.rb.Pre = func(rw http.ResponseWriter, r *http.Request) bool {
+		if strings.HasPrefix(r.URL.Path, "/redirect-me") {
+			w.Probe("backend_redirects_handshake")
+			rw.Header().Set("Location", []string{"http://evil.example:8080/stolen", "//evil.example/stolen", "ws://evil.example/stolen"}[len(r.URL.Path)%3])
+			rw.WriteHeader([]int{302, 301, 307, 308}[len(r.URL.RawQuery)%4])
+			return true
+		}
+		return false
 	}
 	wb.rb.OnHTTP = func(rw http.ResponseWriter, r *http.Request) {
 		b, _ := io.ReadAll(r.Body)
